@@ -375,6 +375,8 @@ def gen_type(rng, depth, allow_option=True, allow_record=True, allow_union=False
             k = rng.randint(1, 2)
             keys = None if rng.random() < 0.3 else ["x", "y", "z"][:k]
             return ("record", keys, [gen_type(rng, 0, True, False, False, leaf_dtypes, regular) for _ in range(k)])
+        if allow_record and rng.random() < 0.12:      # (allow_record doubles as "rich leaves allowed")
+            return ("string", rng.choice(["string", "bytestring"])) if rng.random() < 0.8 else ("string", rng.choice(["string", "bytestring"]), rng.randint(0, 2))
         return ("num", rng.choice(leaf_dtypes))
     r = rng.random()
     if allow_union and r < 0.1:
@@ -406,10 +408,17 @@ def gen_leaf(rng, dtype, small=True):
     return rng.randint(-5, 9)
 
 
+STR_ALPHABET = "abAB z"
+
+
 def gen_value(rng, T, maxlen=3, none_p=0.3):
     k = T[0]
     if k == "num":
         return gen_leaf(rng, T[1])
+    if k == "string":
+        n = T[2] if len(T) > 2 and T[2] is not None else rng.randint(0, 3)
+        txt = "".join(rng.choice(STR_ALPHABET) for _ in range(n))
+        return txt if T[1] == "string" else txt.encode()
     if k == "list":
         return [gen_value(rng, T[1], maxlen, none_p) for _ in range(rng.randint(0, maxlen))]
     if k == "regular":
@@ -427,6 +436,8 @@ def gen_value(rng, T, maxlen=3, none_p=0.3):
 
 def matches(v, T):
     k = T[0]
+    if k == "string":
+        return isinstance(v, str) if T[1] == "string" else isinstance(v, bytes)
     if k == "num":
         if T[1] == "bool":
             return isinstance(v, bool)
@@ -506,6 +517,41 @@ class Enc:
                     buf = list(reversed(values))
                     return NP(dtype, buf, [len(values)], [-1], len(values) - 1)
             return NP(dtype, values)
+        if k == "string":
+            # an array of strings: a list node with __array__ = "string"/"bytestring" directly over uint8 characters
+            # with __array__ = "char"/"byte" (fixed-length strings may be a RegularArray)
+            raw = [v.encode("utf-8", "surrogateescape") if isinstance(v, str) else bytes(v) for v in values]
+            chpar = {"__array__": '"char"' if T[1] == "string" else '"byte"'}
+            stpar = {"__array__": '"string"' if T[1] == "string" else '"bytestring"'}
+            n = len(raw)
+            fixed = T[2] if len(T) > 2 else None
+            if fixed is not None:
+                flat = [b for r in raw for b in r]
+                return RG(fixed, NP("uint8", flat).with_params(chpar), n if fixed == 0 else 0).with_params(stpar)
+            if not rnd or rng.random() < 0.4:
+                offsets, flat = [0], []
+                for r in raw:
+                    flat += list(r)
+                    offsets.append(len(flat))
+                return LO("64" if not rnd else rng.choice(["32", "U32", "64"]), offsets, NP("uint8", flat).with_params(chpar)).with_params(stpar)
+            if rng.random() < 0.5:
+                pre = rng.randint(1, 3)
+                flat = [126] * pre
+                offsets = [pre]
+                for r in raw:
+                    flat += list(r)
+                    offsets.append(len(flat))
+                flat += [126] * rng.randint(0, 2)
+                return LO(rng.choice(["32", "U32", "64"]), offsets, NP("uint8", flat).with_params(chpar)).with_params(stpar)
+            order = list(range(n))
+            rng.shuffle(order)
+            flat, starts, stops = [], [0] * n, [0] * n
+            for i in order:
+                flat += [126] * rng.randint(0, 1)
+                starts[i] = len(flat)
+                flat += list(raw[i])
+                stops[i] = len(flat)
+            return LA(rng.choice(["32", "U32", "64"]), starts, stops, NP("uint8", flat).with_params(chpar)).with_params(stpar)
         if k == "list" or k == "regular":
             n = len(values)
             lens = [len(v) for v in values]
@@ -672,6 +718,9 @@ def zero_of(T):
 
 def junk_value(T):
     k = T[0]
+    if k == "string":
+        n = T[2] if len(T) > 2 and T[2] is not None else 1
+        return ("~" * n) if T[1] == "string" else (b"~" * n)
     if k == "num":
         if T[1] == "bool":
             return True
